@@ -1757,7 +1757,9 @@ class FnTranslator:
         extra += " (rng : Rng)" if self.meta.uses_rng else ""
         name = self.key[1]
         hdr = f"def {name} (env : DepEnv){extra} " + " ".join(params) + f" : M ({rty}) := do"
-        src = f"-- extracted from {self.mod.relpath}:{fn.lineno}-{fn.end_lineno} sha256={self.meta.sha256[:16]}\n"
+        # (line numbers and the source hash go into the evidence, not into the generated text: a comment-only or
+        #  formatting-only edit of /repo then leaves the generated modules byte-identical and the build cache valid)
+        src = f"-- extracted from {self.mod.relpath}::{self.key[1]}\n"
         src += f"-- frame: mutated parameters = {self.mutated}\n"
         text = src + hdr + "\n" + "\n".join(pre + body)
         text = text.replace("RNGSEED", "()")
